@@ -1,6 +1,7 @@
 package rules
 
 import (
+	"go/types"
 	"go/token"
 	"strings"
 
@@ -95,17 +96,39 @@ func c08WritePoints(e *Env, s *Sched) {
 	}
 	// (c) the done consumer writes on every receive
 	okC := false
+	// the consumer is a goroutine of Run: a closure, or a method started with `go`
+	var consumers []*ssa.Function
+	seenC := map[*ssa.Function]bool{run: true}
 	for _, f := range ir.WithClosures(run) {
-		if f == run {
-			continue
+		if !seenC[f] {
+			seenC[f] = true
+			consumers = append(consumers, f)
 		}
+		for _, b := range f.Blocks {
+			for _, in := range b.Instrs {
+				if g, isGo := in.(*ssa.Go); isGo {
+					if callee := g.Call.StaticCallee(); callee != nil && e.P.Funcs[callee] {
+						for _, h := range sortedFns(e.inlinedSet(callee, nil)) {
+							for _, hc := range ir.WithClosures(h) {
+								if !seenC[hc] {
+									seenC[hc] = true
+									consumers = append(consumers, hc)
+								}
+							}
+						}
+					}
+				}
+			}
+		}
+	}
+	for _, f := range consumers {
 		for _, l := range ir.Loops(f) {
 			if l.Ranged == nil {
 				continue
 			}
 			if _, isChan := l.Ranged.Type().Underlying().(interface{ Dir() int }); false && isChan {
 			}
-			if !strings.HasPrefix(l.Ranged.Type().String(), "chan ") {
+			if _, isChan := l.Ranged.Type().Underlying().(*types.Chan); !isChan {
 				continue
 			}
 			var body *ssa.BasicBlock
@@ -117,7 +140,8 @@ func c08WritePoints(e *Env, s *Sched) {
 			if body == nil {
 				continue
 			}
-			bad, _ := ir.Bypass(nil, body, ir.PathQuery{Stop: isW, Bad: func(in ssa.Instruction) bool { return in == l.Header.Instrs[0] }})
+			bad, _ := ir.Bypass(nil, body, ir.PathQuery{Stop: isW, Descend: func(g *ssa.Function) bool { return e.P.Funcs[g] && ir.UniqueSite(g) != nil },
+				Bad: func(in ssa.Instruction) bool { return in == l.Header.Instrs[0] }})
 			if bad == nil {
 				okC = true
 			}
@@ -133,6 +157,7 @@ func c08WritePoints(e *Env, s *Sched) {
 			return ok && sameNode(sd.X, s.WorkerNode)
 		},
 		SkipEdge: func(from *ssa.BasicBlock, idx int) bool { return doneNilEdge(e, from, idx) },
+		Descend:  func(g *ssa.Function) bool { return s.inWorker(g) },
 		Bad:      ir.IsReturn,
 	})
 	var facts []string
